@@ -5,12 +5,12 @@
 WT="$1"; MD="$2"; NAME="$3"
 export CARGO_NET_OFFLINE=true
 cd "$WT" || exit 2
-git checkout -q -- . ; rm -rf tests
+git checkout -q -- . ; rm -rf tests; sleep 1; touch src/lib.rs src/main.rs
 git apply --check "$MD/patch.diff" || { echo "RESULT $NAME patch-does-not-apply"; exit 1; }
 mkdir -p tests
 if [ -f "$MD/demo.rs" ]; then cp "$MD/demo.rs" tests/demo_seed.rs; DEMO="cargo test --offline --test demo_seed"; else DEMO="bash $MD/demo.sh"; cargo build --offline >/dev/null 2>&1; fi
 $DEMO >/tmp/seed_$NAME.clean.log 2>&1; CLEAN=$?
-git apply "$MD/patch.diff"
+git apply "$MD/patch.diff"; sleep 1; touch src/lib.rs src/main.rs
 mv tests /tmp/seed_tests_$$; 
 cargo test --workspace --offline >/tmp/seed_$NAME.base.log 2>&1; BASE=$?
 NPASS=$(grep -E "^test result: ok\. 66 passed" /tmp/seed_$NAME.base.log | wc -l)
